@@ -15,7 +15,7 @@ import sys
 
 VERIF = os.environ.get("VERIF_ROOT", "/verif")
 REPO = os.environ.get("REPO", "/repo")
-BUILD = os.path.join(VERIF, ".build")
+BUILD = os.environ.get("VERIF_BUILD", os.path.join(VERIF, ".build"))
 HARNESS = os.path.join(VERIF, "harness")
 
 ENV = dict(os.environ)
@@ -44,20 +44,32 @@ def run(cmd, cwd=None, capture=True, check=True):
     return p.stdout
 
 
+MODFILE = []
+CMD = [""]
+
+
+def write_if_changed(path, content):
+    if not os.path.exists(path) or open(path).read() != content:
+        with open(path, "w") as f:
+            f.write(content)
+
+
 def ensure_gosum():
-    """harness/go.sum = /repo/go.sum (+ anything extra the harness module needs)."""
+    """A scratch go.mod/go.sum pair (used with -modfile) whose replace directive
+    points at REPO, so that neither /verif/harness/go.mod nor /repo is written to."""
     src = open(os.path.join(REPO, "go.sum")).read()
     extra_path = os.path.join(HARNESS, "go.sum.extra")
     extra = open(extra_path).read() if os.path.exists(extra_path) else ""
-    want = src + extra
-    dst = os.path.join(HARNESS, "go.sum")
-    if not os.path.exists(dst) or open(dst).read() != want:
-        with open(dst, "w") as f:
-            f.write(want)
+    d = os.path.join(BUILD, "mod")
+    os.makedirs(d, exist_ok=True)
+    gomod = open(os.path.join(HARNESS, "go.mod")).read().replace("=> /repo", "=> " + REPO)
+    write_if_changed(os.path.join(d, "go.mod"), gomod)
+    write_if_changed(os.path.join(d, "go.sum"), src + extra)
+    MODFILE[:] = ["-modfile=" + os.path.join(d, "go.mod")]
 
 
 def moddirs():
-    out = run(["go", "list", "-m", "-json", "all"], cwd=HARNESS)
+    out = run(["go", "list"] + MODFILE + ["-m", "-json", "all"], cwd=HARNESS)
     dirs = {}
     dec = json.JSONDecoder()
     i = 0
@@ -82,22 +94,36 @@ def base_overlay(mods):
         os.path.join(bm, "rpc", "client.go"): os.path.join(VERIF, "compat", "rpc_client.go"),
         os.path.join(REPO, "exec", "config.go"): os.path.join(VERIF, "compat", "exec_config.go"),
     }
-    # injected accessor files: inject/<name>__<pkgdir with _ for />.go
+    # injected accessor files: inject/<pkgkey>/<name>.go is added to the package as
+    # zz_verif_<name>.go. Only files named common*.go or <cmd>*.go are used for a given
+    # command, so that one property's accessors cannot break another property's build.
     inj = os.path.join(VERIF, "inject")
-    targets = {
-        "exec_verif.go": os.path.join(REPO, "exec", "zz_verif.go"),
-        "bigslice_verif.go": os.path.join(REPO, "zz_verif.go"),
-        "sliceio_verif.go": os.path.join(REPO, "sliceio", "zz_verif.go"),
-        "sortio_verif.go": os.path.join(REPO, "sortio", "zz_verif.go"),
-        "frame_verif.go": os.path.join(REPO, "frame", "zz_verif.go"),
-        "metrics_verif.go": os.path.join(REPO, "metrics", "zz_verif.go"),
-        "slicecache_verif.go": os.path.join(REPO, "internal", "slicecache", "zz_verif.go"),
-        "bigmachine_verif.go": os.path.join(bm, "zz_verif.go"),
+    pkgdirs = {
+        "exec": os.path.join(REPO, "exec"),
+        "bigslice": REPO,
+        "sliceio": os.path.join(REPO, "sliceio"),
+        "sortio": os.path.join(REPO, "sortio"),
+        "frame": os.path.join(REPO, "frame"),
+        "metrics": os.path.join(REPO, "metrics"),
+        "slicecache": os.path.join(REPO, "internal", "slicecache"),
+        "slicetest": os.path.join(REPO, "slicetest"),
+        "typecheck": os.path.join(REPO, "typecheck"),
+        "bigmachine": bm,
+        "bigmachine_rpc": os.path.join(bm, "rpc"),
+        "bigmachine_testsystem": os.path.join(bm, "testsystem"),
+        "base_limiter": os.path.join(base, "limiter"),
+        "base_file": os.path.join(base, "file"),
     }
-    for name, dst in targets.items():
-        src = os.path.join(inj, name)
-        if os.path.exists(src):
-            ov[dst] = src
+    for key, d in pkgdirs.items():
+        src = os.path.join(inj, key)
+        if not os.path.isdir(src):
+            continue
+        for fn in sorted(os.listdir(src)):
+            if not fn.endswith(".go"):
+                continue
+            stem = fn[:-3]
+            if stem.startswith("common") or stem.startswith(CMD[0]):
+                ov[os.path.join(d, "zz_verif_" + fn)] = os.path.join(src, fn)
     # virtual runtime packages
     for pkg in ("vsched", "vsync", "vatomic"):
         d = os.path.join(VERIF, "engine", "vrt", pkg)
@@ -124,12 +150,12 @@ def instrument(ov, mods):
     with open(ovfile, "w") as f:
         json.dump({"Replace": ov}, f, indent=1)
     # export data for every dependency
-    out = run(["go", "list", "-overlay", ovfile] + GCFLAGS + ["-export", "-deps", "-f",
+    out = run(["go", "list"] + MODFILE + ["-overlay", ovfile] + GCFLAGS + ["-export", "-deps", "-f",
               "{{.ImportPath}} {{.Export}}", "./cmd/..."], cwd=HARNESS)
     exports = os.path.join(BUILD, "exports.txt")
     with open(exports, "w") as f:
         f.write(out)
-    pk = run(["go", "list", "-overlay", ovfile, "-f", "{{.ImportPath}} {{.Dir}} {{range .GoFiles}}{{.}},{{end}}"] + INSTRUMENTED,
+    pk = run(["go", "list"] + MODFILE + ["-overlay", ovfile, "-f", "{{.ImportPath}} {{.Dir}} {{range .GoFiles}}{{.}},{{end}}"] + INSTRUMENTED,
              cwd=HARNESS)
     for line in pk.strip().splitlines():
         path, d, files = line.split(" ")
@@ -142,6 +168,7 @@ def instrument(ov, mods):
 
 def main():
     flavour, cmd = sys.argv[1], sys.argv[2]
+    CMD[0] = cmd
     os.makedirs(os.path.join(BUILD, "bin"), exist_ok=True)
     ensure_gosum()
     mods = moddirs()
@@ -157,7 +184,7 @@ def main():
     with open(ovfile, "w") as f:
         json.dump({"Replace": ov}, f, indent=1)
     out = os.path.join(BUILD, "bin", "%s-%s" % (cmd, flavour))
-    run(["go", "build", "-overlay", ovfile, "-tags", ",".join(tags)] + flags + ["-o", out, "./cmd/" + cmd], cwd=HARNESS)
+    run(["go", "build"] + MODFILE + ["-overlay", ovfile, "-tags", ",".join(tags)] + flags + ["-o", out, "./cmd/" + cmd], cwd=HARNESS)
     print(out)
 
 
